@@ -688,12 +688,9 @@ func (ex *Exec) mergeStates(states []*State, conds []Term, hint string) *State {
 			keySet[k] = true
 		}
 	}
-	if !same {
-		// keys known so far must be materialised for every predecessor
-		for k := range c.heapSorts {
-			keySet[k] = true
-		}
-	}
+	// keys that no predecessor has touched explicitly are resolved lazily through n.alts (see heapGet)
+	// (if the alternatives were dropped because there were too many, untouched keys become unconstrained:
+	// a sound over-approximation)
 	for _, k := range sortedKeys(keySet) {
 		vs := make([]Term, len(states))
 		for i, s := range states {
@@ -1552,8 +1549,10 @@ func (ex *Exec) doMakeInterface(in *ssa.MakeInterface) {
 	ref := ex.allocRef()
 	s := c.sortOf(xt)
 	ub := ex.unboxFn(s)
-	c.assume(Eq(T(s, "(%s %s)", ub, ref.S), x.T))
-	c.assume(Eq(T(SInt, "(dyntype %s)", ref.S), c.typeTag(xt)))
+	// facts about an allocated reference hold only on paths that execute this allocation: references allocated
+	// on mutually exclusive paths may carry the same number
+	c.assume(Implies(ex.rch, Eq(T(s, "(%s %s)", ub, ref.S), x.T)))
+	c.assume(Implies(ex.rch, Eq(T(SInt, "(dyntype %s)", ref.S), c.typeTag(xt))))
 	ex.set(in, Val{T: ref, Ty: in.Type()})
 }
 
